@@ -236,6 +236,25 @@ def auditModel (args : List String) : Option String :=
     | .error _ => none
   | _ => none
 
+/-- `conc G M case0 …`: the sequential outcome of case0 (callback ids not compared) -/
+def concModel (args : List String) : Option String :=
+  match args with
+  | _ :: _ :: c0 :: _ =>
+    (model [c0]).map fun m =>
+      let cut := (m.splitOn " ; cb=").head!
+      cut ++ " ; cb=- ;; mismatch=0 races=0 panics=0"
+  | _ => none
+
+/-- `tfid caseA caseB`: both outcomes as on WAFs built one at a time -/
+def tfidModel (args : List String) : Option String :=
+  match args with
+  | [a, b] => do
+    let ma ← model [a]
+    let mb ← model [b]
+    let strip (m : String) := (m.splitOn " ; cb=").head! ++ " ; cb=-"
+    pure (strip ma ++ " ||| " ++ strip mb)
+  | _ => none
+
 /-- `iso <predecessor case> <probe case>`: by C05_probe the probe's outcome on a recycled
     transaction equals its outcome on a fresh one, whatever the predecessor did -/
 def isoModel (args : List String) : Option String :=
